@@ -301,10 +301,18 @@ NumeralBase(t, b) ==
              pre16 == b = 16 /\ At(w, 1) = 48 /\ (At(w, 2) = 120 \/ At(w, 2) = 88)
                       /\ n >= 3 /\ SpanBase(w, 3, 16) = n + 1
          IN IF ~allDig /\ ~pre16 THEN Bad
-            ELSE IF signed \/ pre16 THEN UnspecN        \* strtoul: wraps negatives, takes 0x with base 16
-            ELSE LET v == DigVal(w, 1, n + 1, b, 0) IN
-                 IF v = -1 THEN UnspecN                  \* strtoul clamps at ULONG_MAX (2^32-1 or 2^64-1)
-                 ELSE Norm(v, 0)
+            ELSE LET v == IF pre16 THEN DigVal(w, 3, n + 1, 16, 0)      \* C strtoul takes 0x / 0X with base 16
+                           ELSE DigVal(w, 1, n + 1, b, 0)
+                 IN IF v = -1 THEN UnspecN             \* strtoul clamps at ULONG_MAX (2^32-1 or 2^64-1)
+                    ELSE IF c = 45 /\ v # 0 THEN UnspecN \* strtoul negates in unsigned long: 2^32-v or 2^64-v
+                    ELSE Norm(v, 0)                     \* "+ff" is 255 and "-0" is 0 everywhere
+
+(* lbaselib.c luaB_tonumber with an explicit base argument: a base outside 2..36 is an argument error      *)
+(* ("base out of range"), whatever the first argument is (base 10 is the ordinary conversion).  A base     *)
+(* given as a numeric string denotes that integer (lua_tointeger); a base with a fraction is not decided   *)
+(* here (lua_number2int truncates or rounds depending on luaconf.h).                                       *)
+ArgErr == <<"argerr">>
+ToNumberStr(t, b) == IF b < 2 \/ b > 36 THEN ArgErr ELSE NumeralBase(t, b)
 
 (* llex.c read_numeral: [0-9.]+ then an optional e/E with optional sign,   *)
 (* then [A-Za-z0-9_]*; the token is then converted as a whole              *)
@@ -326,6 +334,11 @@ LexNumeral(t) == IF OneNumeralToken(t) THEN Unsigned(t) ELSE <<"skip">>
 RECURSIVE Digits(_)
 Digits(n) == IF n < 10 THEN <<48 + n>> ELSE Append(Digits(n \div 10), 48 + (n % 10))
 IntToStr(n) == IF n < 0 THEN <<45>> \o Digits(0 - n) ELSE Digits(n)
+
+(* tonumber(n, b) for an integral number n: with b # 10 luaL_checkstring first turns n into its text,  *)
+(* so tonumber(10, 16) = 16 and tonumber(19, 8) = nil                                                   *)
+ToNumberNum(n, b) == IF b < 2 \/ b > 36 THEN ArgErr
+                     ELSE IF b = 10 THEN Norm(n, 0) ELSE NumeralBase(IntToStr(n), b)
 
 (* the integer hi * 10^8 + lo (0 <= lo < 10^8, hi >= 0), optionally negated *)
 Pad8(n) == LET d == Digits(n) IN Rep(48, 8 - Len(d)) \o d
